@@ -4,7 +4,7 @@
 // trie, the canonically rendered source / destination before / destination after, whether the
 // source changed, and what the pure recursive CopyTo does on the same input.
 //
-//	copier -mode gen -tier quick|thorough -out ops.txt     (seed from VERIF_SEED)
+//	copier -mode gen -tier quick|thorough -out ops.txt [-family main|heldconc]     (seed from VERIF_SEED)
 //	copier -mode run -ops ops.txt -out trace.txt -stats stats.json
 //
 // ops:
@@ -14,6 +14,14 @@
 //	copy s=<seed> d=<seed|fresh> api=copyto|copy [ign=..] [conv=..]
 //	conc s=<seed> d=<seed|fresh> n=<goroutines> [ign=..] [conv=..]
 //	nilarg which=dst|src|puresrc|puredst|pureboth s=<seed>
+//	sib [ign=..] [conv=..]         a second copier for the same type pair is built (and dropped)
+//	rebuild [ign=..] [conv=..]     the case goes on with a newly built copier for the same type pair
+//
+// Option VALUES have an identity: `ign=A,B` / `conv=A:neg` make fresh option values for this one use;
+// `ign@<k>=A,B` / `conv@<k>=A:neg` name an option value that the case HOLDS (a variable of the caller):
+// it is made at its first use and the very same value is passed wherever the same word occurs again in
+// the case - to the constructor, to a sibling constructor, to later calls, to goroutines of a `conc`.
+// An option value is an immutable description (the driver reads `ign@k=` exactly like `ign=`).
 package main
 
 import (
@@ -75,10 +83,55 @@ func convOpt(field, name string) copier.VerifOpt {
 
 var convNames = []string{"i2s", "neg", "fail", "s2i", "pinc", "t2s", "nil"}
 
-// parseOpts reads ign=A,B and conv=A:i2s,B:neg words.
-func parseOpts(words []string) []copier.VerifOpt {
+// optPool: the option values a case holds, keyed by the whole word (`ign@1=A,B`). One pool per case
+// (a `new` line starts a new one), so that a shrunk case replays on its own.
+type optPool struct {
+	mu   sync.Mutex
+	held map[string][]copier.VerifOpt
+	uses map[string]int
+}
+
+func newPool() *optPool {
+	return &optPool{held: map[string][]copier.VerifOpt{}, uses: map[string]int{}}
+}
+
+// heldWord splits `ign@3=A,B` into the plain word `ign=A,B`; ok=false for a plain word.
+func heldWord(w string) (plain string, ok bool) {
+	eq := strings.IndexByte(w, '=')
+	at := strings.IndexByte(w, '@')
+	if eq < 0 || at < 0 || at > eq {
+		return w, false
+	}
+	head := w[:at]
+	if head != "ign" && head != "conv" {
+		return w, false
+	}
+	return head + w[eq:], true
+}
+
+// parseOpts reads ign=A,B and conv=A:i2s,B:neg words (fresh values) and their held forms ign@k= / conv@k=
+// (the case's value of that name, made on first use).
+func parseOpts(pool *optPool, words []string) []copier.VerifOpt {
 	var opts []copier.VerifOpt
 	for _, w := range words {
+		if plain, ok := heldWord(w); ok {
+			if pool == nil {
+				pool = newPool()
+			}
+			pool.mu.Lock()
+			vs, have := pool.held[w]
+			if !have {
+				vs = parseOpts(nil, []string{plain})
+				pool.held[w] = vs
+			}
+			pool.uses[w]++
+			if pool.uses[w] == 2 {
+				sts0.HeldReuse++
+			}
+			pool.mu.Unlock()
+			opts = append(opts, vs...)
+			continue
+		}
 		switch {
 		case strings.HasPrefix(w, "ign="):
 			body := strings.TrimPrefix(w, "ign=")
@@ -95,6 +148,24 @@ func parseOpts(words []string) []copier.VerifOpt {
 		}
 	}
 	return opts
+}
+
+// The slice in which the caller passes its options is the caller's: once the constructor / the call has
+// returned, the caller may reuse it for anything. scribble overwrites every element with an option that
+// would ignore every field of the pair, so that a copier (or an option) that kept the caller's slice
+// instead of what it described copies nothing from then on.
+func poisonOf(p pair) copier.VerifOpt {
+	var names []string
+	seen := map[string]bool{}
+	typeFieldNames(p.dst, 0, seen, &names)
+	typeFieldNames(p.src, 0, seen, &names)
+	return copier.IgnoreFields(append(names, fieldNames...)...)
+}
+
+func scribble(opts []copier.VerifOpt, poison copier.VerifOpt) {
+	for i := range opts {
+		opts[i] = poison
+	}
 }
 
 func kv(words []string, key string) string {
@@ -258,6 +329,156 @@ func genCopies(r *vlib.Rng, out *vlib.Out, n int, optPct int) {
 	}
 }
 
+// ---- held option values ----------------------------------------------------------------------
+//
+// The caller of the library may keep an option value in a variable and pass it to several constructors
+// and calls, alone or together with further options, in any order. These generators make the words of
+// such histories: a case declares a few held values (ign@k= / conv@k=) and every application of options
+// mixes them with fresh ones.
+
+// typeFieldNames: the field names of a struct type, through nested structs and pointers (ignore lists and
+// converter tables are consulted by name at every level).
+func typeFieldNames(t reflect.Type, depth int, seen map[string]bool, out *[]string) {
+	for t.Kind() == reflect.Pointer {
+		t = t.Elem()
+	}
+	if t.Kind() != reflect.Struct || depth > 2 || t == reflect.TypeOf(time.Time{}) {
+		return
+	}
+	for i := 0; i < t.NumField(); i++ {
+		f := t.Field(i)
+		if !seen[f.Name] {
+			seen[f.Name] = true
+			*out = append(*out, f.Name)
+		}
+		typeFieldNames(f.Type, depth+1, seen, out)
+	}
+}
+
+func pairFieldNames(p pair) []string {
+	var names []string
+	seen := map[string]bool{}
+	typeFieldNames(p.dst, 0, seen, &names)
+	typeFieldNames(p.src, 0, seen, &names)
+	if len(names) > 10 {
+		names = names[:10]
+	}
+	if len(names) == 0 {
+		names = append(names, fieldNames[:3]...)
+	}
+	return names
+}
+
+func pickNames(r *vlib.Rng, names []string, k int) string {
+	var fs []string
+	for i := 0; i < k; i++ {
+		fs = append(fs, vlib.Pick(r, names))
+	}
+	return strings.Join(fs, ",")
+}
+
+// genHeld: the option values a case holds: one to three ignore lists, sometimes a converter table.
+func genHeld(r *vlib.Rng, names []string) []string {
+	var held []string
+	n := r.Range(1, 3)
+	for k := 1; k <= n; k++ {
+		if k > 1 && r.Chance(30) {
+			held = append(held, "conv@"+strconv.Itoa(k)+"="+vlib.Pick(r, names)+":"+vlib.Pick(r, convNames))
+		} else {
+			held = append(held, "ign@"+strconv.Itoa(k)+"="+pickNames(r, names, r.Range(1, 2)))
+		}
+	}
+	return held
+}
+
+// genMixed: the options of one application (constructor or call): with chance pct one to three option
+// words in a random order, each a held value or a fresh one.
+func genMixed(r *vlib.Rng, held, names []string, pct int) string {
+	if !r.Chance(pct) {
+		return ""
+	}
+	out := ""
+	n := r.Range(1, 3)
+	for i := 0; i < n; i++ {
+		switch p := r.Intn(100); {
+		case p < 55 && len(held) > 0:
+			out += " " + vlib.Pick(r, held)
+		case p < 85:
+			out += " ign=" + pickNames(r, names, r.Range(1, 2))
+		default:
+			out += " conv=" + vlib.Pick(r, names) + ":" + vlib.Pick(r, convNames)
+		}
+	}
+	return out
+}
+
+func genCopy1(r *vlib.Rng, out *vlib.Out, opts string) {
+	d := "fresh"
+	if r.Chance(70) {
+		d = strconv.Itoa(r.Range(1, 1<<30))
+	}
+	api := "copyto"
+	if d == "fresh" && r.Chance(40) {
+		api = "copy"
+	}
+	out.Line("copy s=%d d=%s api=%s%s", r.Range(1, 1<<30), d, api, opts)
+}
+
+// genHeldCase: the ops after the `new` line of a case whose options are held values mixed with fresh ones:
+// calls, a sibling constructor, a rebuilt copier, a shared-copier run, calls again.
+func genHeldCase(r *vlib.Rng, out *vlib.Out, held, names []string, calls int) {
+	for i := 0; i < calls; i++ {
+		genCopy1(r, out, genMixed(r, held, names, 75))
+	}
+	if r.Chance(60) {
+		out.Line("sib%s", genMixed(r, held, names, 100))
+		genCopy1(r, out, genMixed(r, held, names, 40))
+	}
+	if r.Chance(50) {
+		out.Line("rebuild%s", genMixed(r, held, names, 85))
+		for i := 0; i < 2; i++ {
+			genCopy1(r, out, genMixed(r, held, names, 50))
+		}
+	}
+	if r.Chance(25) {
+		// goroutines with fresh option values only; held values shared between goroutines: genHeldConc
+		out.Line("conc s=%d d=%d n=4%s", r.Range(1, 1<<30), r.Range(1, 1<<30), genMixed(r, nil, names, 80))
+		genCopy1(r, out, genMixed(r, held, names, 50))
+	}
+}
+
+// genHeldConc (family heldconc, a trace of its own: a data race on a shared option value may end the process,
+// and the sequential histories of the main family are then still judged one by one): goroutines that share
+// one copier AND the option values the case holds.
+func genHeldConc(tier string, out *vlib.Out) {
+	r := vlib.NewRng(vlib.Seed() + 0x5eed)
+	rounds := 1
+	if tier == "thorough" {
+		rounds = 6
+	}
+	for round := 0; round < rounds; round++ {
+		for _, p := range library {
+			names := pairFieldNames(p)
+			held := genHeld(r, names)
+			out.Line("new L %s%s", p.name, genMixed(r, held, names, 40))
+			genCopy1(r, out, genMixed(r, held, names, 75))
+			out.Line("conc s=%d d=%d n=8 %s%s", r.Range(1, 1<<30), r.Range(1, 1<<30), held[0], genMixed(r, held, names, 60))
+			genCopy1(r, out, genMixed(r, held, names, 75))
+			genCopy1(r, out, "")
+		}
+		for c := 0; c < 60; c++ {
+			s, d := genStructPair(r, 0)
+			if r.Chance(30) {
+				d = s
+			}
+			held := genHeld(r, fieldNames)
+			out.Line("new G %s %s%s", s, d, genMixed(r, held, fieldNames, 40))
+			out.Line("conc s=%d d=%d n=4 %s%s", r.Range(1, 1<<30), r.Range(1, 1<<30), held[0], genMixed(r, held, fieldNames, 60))
+			genCopy1(r, out, genMixed(r, held, fieldNames, 75))
+		}
+	}
+}
+
 func gen(tier string, out *vlib.Out) {
 	r := vlib.NewRng(vlib.Seed())
 	thorough := tier == "thorough"
@@ -312,6 +533,48 @@ func gen(tier string, out *vlib.Out) {
 			}
 		}
 	}
+	// held option values: every library pair, options drawn from the pair's own field names
+	for _, p := range library {
+		names := pairFieldNames(p)
+		for rep := 0; rep < 2; rep++ {
+			held := genHeld(r, names)
+			out.Line("new L %s%s", p.name, genMixed(r, held, names, 50*rep))
+			genHeldCase(r, out, held, names, 4)
+		}
+	}
+	// one held option value followed by one fresh option in the same application, then the held value alone:
+	// all ordered pairs of field names of the small structs; in calls, in constructors (sibling and rebuilt
+	// copiers), for ignore lists and for converters
+	for _, name := range []string{"small3", "nestign", "partial", "extradst"} {
+		p, _ := findPair(name)
+		names := pairFieldNames(p)
+		if len(names) > 5 {
+			names = names[:5]
+		}
+		for _, f := range names {
+			for _, g := range names {
+				if f == g {
+					continue
+				}
+				sd := func() string { return "s=" + strconv.Itoa(r.Range(1, 1<<30)) + " d=" + strconv.Itoa(r.Range(1, 1<<30)) }
+				out.Line("new L %s", name)
+				out.Line("copy %s api=copyto ign@1=%s ign=%s", sd(), f, g)
+				out.Line("copy %s api=copyto ign@1=%s", sd(), f)
+				out.Line("copy %s api=copyto conv@2=%s:neg conv=%s:neg", sd(), f, g)
+				out.Line("copy %s api=copyto conv@2=%s:neg", sd(), f)
+				out.Line("copy %s api=copyto", sd())
+				out.Line("new L %s ign@1=%s conv@2=%s:neg", name, f, f)
+				out.Line("sib ign@1=%s ign=%s", f, g)
+				out.Line("copy %s api=copyto", sd())
+				out.Line("sib conv@2=%s:neg conv=%s:neg", f, g)
+				out.Line("copy %s api=copyto", sd())
+				out.Line("rebuild ign@1=%s", f)
+				out.Line("copy %s api=copyto", sd())
+				out.Line("rebuild conv@2=%s:neg", f)
+				out.Line("copy %s api=copyto", sd())
+			}
+		}
+	}
 	// converters on purpose
 	for _, c := range []string{
 		"new L ident conv=A:i2s\ncopy s=3 d=fresh api=copyto\ncopy s=4 d=9 api=copyto conv=A:neg\ncopy s=5 d=9 api=copyto",
@@ -345,6 +608,13 @@ func gen(tier string, out *vlib.Out) {
 		if r.Chance(12) {
 			d = s
 		}
+		if c%8 == 7 {
+			// held option values on generated pairs
+			held := genHeld(r, fieldNames)
+			out.Line("new G %s %s%s", s, d, genMixed(r, held, fieldNames, 40))
+			genHeldCase(r, out, held, fieldNames, 3)
+			continue
+		}
 		out.Line("new G %s %s%s", s, d, genOptWords(r, 12))
 		genCopies(r, out, 4, 12)
 		if r.Chance(10) {
@@ -366,6 +636,7 @@ type stats struct {
 	Lines     int            `json:"lines"`
 	Distinct  int            `json:"distinct_state_op_pairs"`
 	Recopies  int            `json:"second_copies_into_the_same_destination"`
+	HeldReuse int            `json:"held_option_values_used_more_than_once"`
 }
 
 // sts0: the run's statistics (oneCopy is also called from goroutines of `conc` ops: counted approximately)
@@ -383,12 +654,15 @@ type state struct {
 	p    pair
 	h    handle
 	line string
+	pool *optPool
+	// what the option slices of this case are overwritten with after use (scribble)
+	poison copier.VerifOpt
 }
 
 // oneCopy runs the tree copier and the pure copier on values regenerated from the seeds.
 func oneCopy(st *state, w []string) (res, src0, d0, d1, same, pres, pd1, psame string) {
 	sseed, dseed, api := kv(w, "s"), kv(w, "d"), kv(w, "api")
-	opts := parseOpts(w)
+	opts := parseOpts(st.pool, w)
 	src := newValue(st.p.src, sseed)
 	dst := newValue(st.p.dst, dseed)
 	rd := newRenderer()
@@ -408,6 +682,7 @@ func oneCopy(st *state, w []string) (res, src0, d0, d1, same, pres, pd1, psame s
 	if p != "" {
 		res = p
 	}
+	scribble(opts, st.poison)
 	if dst.IsNil() {
 		d1 = "z"
 	} else {
@@ -465,7 +740,7 @@ func concWords(w []string, g int) []string {
 		case 2:
 			var kept []string
 			for _, x := range cw {
-				if !strings.HasPrefix(x, "ign=") && !strings.HasPrefix(x, "conv=") {
+				if !strings.HasPrefix(x, "ign") && !strings.HasPrefix(x, "conv") {
 					kept = append(kept, x)
 				}
 			}
@@ -524,15 +799,20 @@ func run(ops []string, out *vlib.Out, sts *stats) {
 				continue
 			}
 			var h handle
+			pool := newPool()
+			var poison copier.VerifOpt
 			pn := vlib.Catch(func() {
 				var err error
-				h, err = p.build(parseOpts(optWords))
+				poison = poisonOf(p)
+				o := parseOpts(pool, optWords)
+				h, err = p.build(o)
 				res = errTok(err)
+				scribble(o, poison)
 			})
 			if pn != "" {
 				res = pn
 			}
-			st = &state{p: p, h: nil, line: line}
+			st = &state{p: p, h: nil, line: line, pool: pool, poison: poison}
 			if res == "ok" {
 				st.h = h
 				trie = " trie=" + h.Trie()
@@ -543,6 +823,38 @@ func run(ops []string, out *vlib.Out, sts *stats) {
 				seen[line] = struct{}{}
 			}
 			out.Line("%s => %s src=%s dst=%s%s", line, res, enc.ty(p.src), enc.ty(p.dst), trie)
+		case "sib", "rebuild":
+			// another copier for the same pair of types, built from options that may be values the case already
+			// holds (and has passed to the first constructor or to earlier calls). `sib`: it is dropped, the case goes
+			// on with the first copier; `rebuild`: the case goes on with the new one.
+			if st == nil {
+				out.Line("%s => no-case", line)
+				continue
+			}
+			var h handle
+			var res, trie string
+			pn := vlib.Catch(func() {
+				var err error
+				o := parseOpts(st.pool, w[1:])
+				h, err = st.p.build(o)
+				res = errTok(err)
+				scribble(o, st.poison)
+			})
+			if pn != "" {
+				res = pn
+			}
+			if res == "ok" {
+				trie = " trie=" + h.Trie()
+			}
+			sts.Builds[w[0]+":"+class(res)]++
+			if w[0] == "rebuild" {
+				st.h = nil
+				if res == "ok" {
+					st.h = h
+				}
+				st.line = st.line + "|" + line
+			}
+			out.Line("%s => %s src=%s dst=%s%s", line, res, enc.ty(st.p.src), enc.ty(st.p.dst), trie)
 		case "copy":
 			if st == nil {
 				out.Line("%s => no-case", line)
@@ -592,6 +904,12 @@ func run(ops []string, out *vlib.Out, sts *stats) {
 				o.res, o.src0, o.d0, o.d1, o.same, _, _, _ = oneCopy(st, cws[g])
 				refs[g] = o
 			}
+			// held option values (ign@k= / conv@k=) are the SAME values in every goroutine that names them, as when
+			// an application keeps its options in package variables
+			optsG := make([][]copier.VerifOpt, n)
+			for g := 0; g < n; g++ {
+				optsG[g] = parseOpts(st.pool, cws[g])
+			}
 			// the hot loop contains nothing but the copier calls: inputs are built before the start signal,
 			// destinations are rendered after the loop
 			const reps = 24
@@ -603,7 +921,7 @@ func run(ops []string, out *vlib.Out, sts *stats) {
 				go func(g int) {
 					defer wg.Done()
 					sseed, dseed := kv(cws[g], "s"), kv(cws[g], "d")
-					opts := parseOpts(cws[g])
+					opts := optsG[g]
 					var srcs, dsts [reps]reflect.Value
 					var rds [reps]*renderer
 					var outs [reps]one
@@ -633,6 +951,7 @@ func run(ops []string, out *vlib.Out, sts *stats) {
 							diff[g] = true
 						}
 					}
+					scribble(opts, st.poison)
 				}(g)
 			}
 			close(start)
@@ -688,6 +1007,7 @@ func run(ops []string, out *vlib.Out, sts *stats) {
 func main() {
 	mode := flag.String("mode", "gen", "gen|run")
 	tier := flag.String("tier", "quick", "quick|thorough")
+	family := flag.String("family", "main", "gen mode: main | heldconc (goroutines sharing held option values)")
 	opsF := flag.String("ops", "", "ops file (run mode)")
 	outF := flag.String("out", "", "output file")
 	statsF := flag.String("stats", "", "stats json (run mode)")
@@ -697,12 +1017,17 @@ func main() {
 	defer out.Close()
 	switch *mode {
 	case "gen":
-		gen(*tier, out)
+		if *family == "heldconc" {
+			genHeldConc(*tier, out)
+		} else {
+			gen(*tier, out)
+		}
 	case "run":
 		st := &stats{Ops: map[string]int{}, Results: map[string]int{}, Pure: map[string]int{}, Builds: map[string]int{},
 			TrieNodes: map[string]int{}, Agree: map[string]int{}}
 		run(vlib.ReadLines(*opsF), out, st)
 		st.Recopies = sts0.Recopies
+		st.HeldReuse = sts0.HeldReuse
 		if *statsF != "" {
 			b, _ := json.MarshalIndent(st, "", " ")
 			os.WriteFile(*statsF, b, 0o644)
